@@ -456,7 +456,7 @@ def run(ctx):
 
         raise Vacuity(f"outcomes not all reached: {ocs}")
     # ---- S2 --------------------------------------------------------------------------
-    limit = 25000 if quick else None
+    limit = 25000 if quick else 150000
     paths, covered = dot.covering_paths(g, max_len=12, limit=limit, rng=ctx.rng)
     ids = {nid: k for k, nid in enumerate(g.state_text)}
     states = [None] * len(ids)
